@@ -1,6 +1,6 @@
 (* Base.v — result type with explicit panic sites, byte-string helpers.
    Conventions: every Rust integer is an [N]; wrap-around is written explicitly. *)
-From Coq Require Export NArith List Bool Lia.
+From Coq Require Export NArith ZArith List Bool Lia.
 Export ListNotations.
 Open Scope N_scope.
 
@@ -98,3 +98,24 @@ Definition b2n (b : bool) : N := if b then 1 else 0.
 
 Fixpoint repeatN {A} (x : A) (n : nat) : list A :=
   match n with O => [] | S n' => x :: repeatN x n' end.
+
+(* ---------- packet ids (src/packet_id.rs): 20-bit ids carried in u32 ---------- *)
+Definition pid_add (a b : N) : N := ((a + b) mod pow32) mod pow20.
+Definition pid_sub (a b : N) : N := ((a + pow32 - b mod pow32) mod pow32) mod pow20.
+Definition pid_valid (a : N) : bool := a <? pow20.
+
+(* ---------- list helpers ---------- *)
+Fixpoint upd {A} (l : list A) (i : nat) (x : A) : list A :=
+  match l, i with
+  | [], _ => []
+  | _ :: t, O => x :: t
+  | h :: t, S i' => h :: upd t i' x
+  end.
+
+(* indices can be ~2^32 (wrapped differences): never convert an out-of-range index to nat *)
+Definition nth_opt {A} (l : list A) (i : N) : option A :=
+  if i <? N.of_nat (length l) then nth_error l (N.to_nat i) else None.
+
+Definition opt_default {A} (d : A) (o : option A) : A := match o with Some x => x | None => d end.
+
+Definition Zlen {A} (l : list A) : Z := Z.of_nat (length l).
